@@ -57,12 +57,19 @@ type zzServerScript struct {
 	header     http.Header
 	lastReq    *http.Request
 	roundTrips int
+	dialGate   chan struct{} // when set, a dial waits for a token (a handshake in progress)
+	dialing    int
 }
 
 var zzServer = &zzServerScript{status: 233, header: http.Header{}}
 
 //verif:model (*github.com/apernet/quic-go.Transport).DialEarly
 func zzModelDialEarly(t *quic.Transport, ctx context.Context, addr net.Addr, tlsConf *tls.Config, conf *quic.Config) (*quic.Conn, error) {
+	if zzServer.dialGate != nil {
+		zzServer.dialing++
+		<-zzServer.dialGate
+		zzServer.dialing--
+	}
 	if zzServer.dialErr != nil {
 		return nil, zzServer.dialErr
 	}
